@@ -367,7 +367,15 @@ func (g *gate) SendRequest(ctx context.Context, addr string, req *tikvrpc.Reques
 		g.wire = append(g.wire, fmt.Sprintf("del:%d", b01(req.RawDelete().ForCas)))
 	case tikvrpc.CmdRawScan:
 		r := req.RawScan()
-		g.wire = append(g.wire, fmt.Sprintf("scan:%d:%d:%d", b01(r.KeyOnly), b01(r.Reverse), r.Limit))
+		lo, hi := g.strip(r.StartKey), g.stripEnd(r.EndKey)
+		if r.Reverse { // reverse: StartKey is the upper bound (never empty), EndKey the lower one
+			lo, hi = g.strip(r.EndKey), g.strip(r.StartKey)
+		}
+		g.wire = append(g.wire, fmt.Sprintf("scan:%d:%d:%d:%s:%s", b01(r.KeyOnly), b01(r.Reverse), r.Limit, hx(lo), hx(hi)))
+	case tikvrpc.CmdRawChecksum:
+		for _, kr := range req.RawChecksum().Ranges {
+			g.wire = append(g.wire, fmt.Sprintf("cksum:%s:%s", hx(g.strip(kr.StartKey)), hx(g.stripEnd(kr.EndKey))))
+		}
 	case tikvrpc.CmdRawCompareAndSwap:
 		r := req.RawCompareAndSwap()
 		g.wire = append(g.wire, fmt.Sprintf("cas:%d:%d", b01(r.PreviousNotExist), r.Ttl))
